@@ -150,6 +150,7 @@ pub fn build(prop: &str, tier: Tier) -> Vec<Case> {
         "C08" => e1::c08(tier),
         "C09" => e1::c09(tier),
         "C10" => e1b::c10(tier),
+        "C12" => e1::c12(tier),
         "C05" => e1b::c05(tier),
         "C06" => e1b::c06(tier),
         "C07" => e1b::c07(tier),
